@@ -13,7 +13,7 @@ CFG = {'assumptions': ['the initial offset o is a multiple of 64 (the property s
                                    'bitmap.Get/Get1/SafeGet/SafeGet1 on the exported Words [widened]'},
  'rule': 'one case = one whole history on a fresh NewTailBitmap(o); exported Offset and Words and the result are '
          'observed after EVERY call. Cases = all histories of <= 3 (quick) / 4 (thorough) calls over an 11-call '
-         'alphabet around the first words for o in {0,64,640} with edge-position probe sweeps + structured random '
+         'alphabet around the first words for o in {0,64,-64} (thorough: also -128, 640; negative offsets and indices are in the domain) with edge-position probe sweeps + structured random '
          'histories of up to 300 calls (scattered, front-to-back with skipped bits revisited, back-to-front, whole '
          'words in random order, dense first word; sets below the offset, repeated sets, explicit Compact, Get/Get1 '
          'probes after every mutation at offset/word/end boundaries) + in-order fills of 1030 words crossing the '
